@@ -79,7 +79,7 @@ def judge(ctx, ws, blob, sections, origin, exec_names, all_names, extra=None):
         return
     textA = filter_sections(full, set(sections)) if sections else full
     rcB, textB, errB = objd.disassemble(op, sections=sections) if sections else (rc_full, full, "")
-    rt = rule_text(sections, extra=extra)
+    rt = rt_text = rule_text(sections, extra=extra)
     del SPAWNS[:]
     rR = objd.real_stream(ws, op, binary=True, rule_text=rt)
     ctx.ran()
@@ -121,6 +121,14 @@ def judge(ctx, ws, blob, sections, origin, exec_names, all_names, extra=None):
             ctx.inconc("references A and B differ without a data section being named")
             return
     ctx.event("routes_compared")
+    if ctx.rng.random() < 0.3:
+        rt = real.match_twice(ws.write("_stream_rule.yaml", rt_text), op, binary=True, ret="stream")
+        ctx.ran(2)
+        ctx.event("same_object_asked_twice")
+        if rt[0] != "ok" or rt[1] != rR[1] or rt[2] != rR[1]:
+            ctx.disagreement(case, f"perform_matching() twice on one object with a binary input: 1st {str(rt[1]).count('|')} records, 2nd {str(rt[2]).count('|') if rt[0] == 'ok' else rt[1:]} "
+                                   f"records, a fresh object gives {rR[1].count('|')}")
+            return
     if rR[1] not in acceptable:
         try:
             nR, nA = len(stream.decode(rR[1])), len(stream.decode(rA[1]))
